@@ -2,6 +2,7 @@ package main
 
 import (
 	_ "verifmc/checks/alloc"
+	_ "verifmc/checks/c01"
 	_ "verifmc/checks/c10"
 	_ "verifmc/checks/c11"
 	_ "verifmc/checks/c12"
